@@ -125,6 +125,20 @@ def _aliases(it, st, frame, spec):
     return out
 
 
+def _unbound_params(it, st, frame, spec, inv):
+    """invariant parameters that are neither locals nor role-bound but are assigned inside the loop"""
+    alias = getattr(frame, "spec_alias", None) or {}
+    assigned = set(_assigned_names(st))
+    in_test = {x.id for x in ast.walk(st.test) if isinstance(x, ast.Name)}
+    out = set()
+    for a in inv.node.args.args:
+        p = a.arg
+        # not when the loop CONDITION reads it: that would be an UnboundLocalError in the real code
+        if p != "k_" and p not in frame.locals and p not in alias and p in assigned and p not in in_test:
+            out.add(p)
+    return out
+
+
 def _call_spec(it, fi, frame, extra=None):
     env = dict(frame.locals)
     if extra:
@@ -295,7 +309,21 @@ def run_while_with_invariant(it, st, frame, spec):
     tag = _name(it, frame, st)
     oname = ctx.ghost.get("contract_name", "?") + "." + tag
     # contracts apply to the callee code only: suspend nothing -- spec code always runs inline
-    ctx.oblige(oname + ".entry", ops.truthy(it, _call_spec(it, inv, frame)), info={"loop": tag})
+    unbound = _unbound_params(it, st, frame, spec, inv)
+    if unbound:
+        # a local the invariant names does not exist yet at the loop head but the loop assigns it (a sentinel
+        # initialisation that a refactoring removed).  Its head value is immaterial -- Python would raise
+        # UnboundLocalError if the body read it before assigning it (definite assignment is ASSUMED here) -- so
+        # the invariant only has to hold at entry for SOME value: tried for a few candidates, disjunctively.
+        alts = []
+        for cand in (-2, -1, 0, 1):
+            alts.append(ops.truthy(it, _call_spec(it, inv, frame, {p: cand for p in unbound})))
+        ctx.oblige(oname + ".entry", sym.b_or(*alts), info={"loop": tag, "unbound_locals": sorted(unbound)})
+        for p in unbound:
+            ctx.fresh_n += 1
+            frame.locals[p] = ctx.input_int("loop.%s.%s.unbound!%d" % (tag, p, ctx.fresh_n), -(1 << 62), (1 << 62) - 1)
+    else:
+        ctx.oblige(oname + ".entry", ops.truthy(it, _call_spec(it, inv, frame)), info={"loop": tag})
     if spec.entry:
         ctx.oblige(oname + ".at_entry", ops.truthy(it, _call_spec(it, prog.func(spec.entry), frame)), info={"loop": tag})
     if spec.variant:
